@@ -264,7 +264,7 @@ class C06(Check):
             density = min(density, 0.05)
         elif len(steps) > 150:
             density = min(density, 0.2)
-        return {"backend": backend, "steps": steps, "lat": lat, "density": density, "sample_seed": derive(seed, self.prop, idx, "sample"), "tz_off_min": r.choice([0, 0, -300, 180, 330])}
+        return {"backend": backend, "steps": steps, "lat": lat, "density": density, "sample_seed": derive(seed, self.prop, idx, "sample"), "tz_off_min": r.choice([0, 0, -300, 180, 330]), "clock0": r.choice([1_700_000_000_000_000, 2_000_000_000_000_000])}
 
     def start(self, world, run):
         seams.CLOCK.set_local_offset(run.get("tz_off_min", 0))
